@@ -5,14 +5,30 @@ from . import world as W
 odml = W.odml
 
 PVALS = [("int", [1, 2]), ("2-tuple", ["(1;2)", "(3;4)"]), ("string", ["x", "y,z"]), ("float", [1.5]),
-         ("date", [dt.date(2020, 1, 2)]), ("boolean", [True, False])]
+         ("date", [dt.date(2020, 1, 2)]), ("boolean", [True, False]), ("string", []), (None, []), ("float", [0.0])]
 
 
-def mk(h, k, st):
+def salt_of(st):
+    """a small number derived from the tree (names and shape), to vary the decoration between trees"""
+    import json
+    return sum(ord(c) for c in json.dumps(st["name"], sort_keys=True) + json.dumps(st["par"], sort_keys=True)) % 89
+
+
+def mk_salted(salt, unnamed=False):
+    def f(h, k, st):
+        o = mk(h, k, st, salt)
+        if unnamed and o is not None and k in ("sec", "prop") and ((int(h[1:]) if h[1:].isdigit() else 0) + salt) % 5 == 2:
+            # an object without a name of its own: the library names it by its id
+            o = mk(h, k, dict(st, name=dict(st["name"], **{h: None})), salt)
+        return o
+    return f
+
+
+def mk(h, k, st, salt=0):
     """decorated objects: every attribute carries a value derived from the handle"""
-    n = int(h[1:]) if h[1:].isdigit() else 0
+    n = (int(h[1:]) if h[1:].isdigit() else 0) + salt
     if k == "doc":
-        return odml.Document(author="author-" + h, version="v" + h, date=dt.date(2020, 1, 1 + n), repository=None)
+        return odml.Document(author="author-" + h, version="v" + h, date=dt.date(2020, 1, 1 + n % 27), repository=None)
     if k == "sec":
         return odml.Section(name=st["name"][h], type=st["type"][h], definition="def-" + h,
                             reference="ref-" + h if n % 2 else None,
@@ -83,6 +99,7 @@ def subtree(o):
 
 
 def replay(st):
+    mk = mk_salted(salt_of(st), unnamed=True)
     rng = random.Random(hash(repr(sorted(st["name"].items()))) & 0xffffff)
     live = [h for h, k in st["kind"].items() if k in ("doc", "sec", "prop")]
     for x in live:
